@@ -297,8 +297,6 @@ def history_task(task, wdir, res):
                         fam = None
                         if fk.startswith("float"):
                             fam = "float_metric"
-                        elif name == "count_unique" and fk.rstrip("?") in ("int", "u64", "datetime"):
-                            fam = "count_unique_numeric"
                         elif name in ("count_field", "count_unique", "avg", "total") and fk.endswith("?"):
                             fam = "metric_over_nullable"   # MIN / MAX over nullable fields are correct on the tree and stay asserted
                         report("metric_mismatch", sig,
